@@ -443,6 +443,10 @@ fn one_case(w: &mut impl Write, id: &str, src: &str, cfgs: &[&str]) {
     }
     w.flush().unwrap();
     for cfg in cfgs {
+        if cfg.len() != 2 {
+            // "none" (or anything that is not a two-letter configuration): front end only
+            continue;
+        }
         writeln!(w, "begin {cfg}").unwrap();
         w.flush().unwrap();
         let b = cfg.as_bytes();
